@@ -1,5 +1,6 @@
 (* C08 — Results do not depend on call history; all API paths agree. *)
 From Coq Require Import List String Bool NArith.
+From GV Require Attr.Steps Norm.ClassOrder Base.Bytes.
 From GV Require Import Attr.Paths Facts.Paths.
 Import ListNotations.
 Open Scope string_scope.
@@ -31,8 +32,35 @@ Section C08.
   Proof. exact (paths_agree doc glob html collect empty render reorder). Qed.
 End C08.
 
+(* ---- step-by-step API: build a tree now, render it later, anything in between ---- *)
+Section C08_steps.
+  Variables (doc glob html : Type) (collect : doc -> glob) (empty : glob) (render : glob -> doc -> html) (reorder : html -> html).
+  Notation run := (Attr.Steps.run doc glob html collect empty render reorder true).
+  Notation references := (Attr.Steps.references doc glob html collect render reorder).
+
+  (* every output of every operation history = the same request made first in a fresh process *)
+  Theorem C08_every_step_as_if_first : forall h, run (Attr.Steps.fresh doc glob) h = references [] h.
+  Proof. exact (Attr.Steps.fresh_history doc glob html collect empty render reorder true eq_refl). Qed.
+
+  (* a tree renders as its own document does, whatever is compiled between building and rendering it *)
+  Theorem C08_tree_renders_as_its_document : forall d between,
+    last (run (Attr.Steps.fresh doc glob) (Attr.Steps.New doc d :: between ++ [Attr.Steps.RenderTree doc 0])) None = Some (render (collect d) d).
+  Proof. exact (Attr.Steps.tree_renders_as_its_document doc glob html collect empty render reorder true eq_refl). Qed.
+End C08_steps.
+
+(* ---- the class-order rewrite that distinguishes the one-shot path (byte-level port) ---- *)
+Theorem C08_class_order_rewrite_permutes_bytes : forall s,
+  Norm.ClassOrder.closed (List.length s) s = true -> Permutation.Permutation (Norm.ClassOrder.normalize s) s.
+Proof. exact Norm.ClassOrder.normalize_perm. Qed.
+Theorem C08_class_order_rewrite_identity_without_trigger : forall s,
+  Base.Bytes.contains Norm.ClassOrder.trigger s = false -> Norm.ClassOrder.normalize s = s.
+Proof. exact Norm.ClassOrder.normalize_id_without_trigger. Qed.
+
 Print Assumptions C08_entries_install_store.
 Print Assumptions C08_legacy_getters_guarded.
 Print Assumptions C08_history_free.
 Print Assumptions C08_every_call_as_if_first.
 Print Assumptions C08_paths_agree.
+Print Assumptions C08_every_step_as_if_first.
+Print Assumptions C08_tree_renders_as_its_document.
+Print Assumptions C08_class_order_rewrite_permutes_bytes.
